@@ -48,6 +48,18 @@ example :
     r.err = some .reverted ∧ r.world.getState (.base 20) 1 = 0 ∧ w.getState (.base 20) 1 = 0 := by
   decide
 
+/-- non-vacuity for the precompile branch (snapshot, transfer, `RunPrecompiledContract`, revert on
+    error): a value CALL to a precompile that fails leaves the caller's balance and the precompile's
+    (non-)existence as they were; the same call succeeding moves the value -/
+example :
+    let env : Env := { origin := .base 10, rv := restore, isPrecompile := fun a => a == .base 109 }
+    let w : World := ({} : World).addBalance (.base 20) 5
+    let bad := callFrame env 1 false (.base 20) .call (.base 109) 1 (.done .invalid) w
+    let good := callFrame env 1 false (.base 20) .call (.base 109) 1 (.done .stop) w
+    bad.err = some .precompileFail ∧ bad.world.getBalance (.base 20) = 5 ∧ bad.world.exists? (.base 109) = false
+    ∧ good.err = none ∧ good.world.getBalance (.base 20) = 4 ∧ good.world.getBalance (.base 109) = 1 := by
+  decide
+
 /-- `AuthCall`: a failed frame restores the observation at its snapshot, i.e. the caller's world
     with the authorized account's nonce already bumped (`authEntryWorld`). -/
 theorem failed_authcall_no_trace (env : Env) (hrv : RevertRestoresObs env.rv) (depth : Nat) (ro : Bool)
@@ -60,7 +72,7 @@ theorem failed_authcall_no_trace (env : Env) (hrv : RevertRestoresObs env.rv) (d
   cases h : authEnter env depth ro au target value w with
   | fail w' e => rfl
   | skip w' => simp [h] at hfail
-  | enter saved w' self' ro' exec =>
+  | enter saved w' self' ro' callee =>
     simp only [h, authExit] at hfail ⊢
     simp only [hfail, ↓reduceIte]
     exact hrv _ _
@@ -189,13 +201,13 @@ theorem staticcall_no_write_partial (env : Env) (hrv : RevertRestoresObs env.rv)
   · simp [hd]
   · simp only [hd, ↓reduceIte]
     have h1 : Keeps w (w.addBalance target 0) := Keeps.of_obs_eq (World.obs_addBalance_zero _ _) hwf
-    cases hx : runsCode env (w.addBalance target 0) target
-    · simp only [Bool.false_eq_true, ↓reduceIte, callExit_world]
-      exact h1.1
-    · simp only [↓reduceIte, callExit_world]
-      split
-      · exact liveObs_congr (hrv _ _)
+    rw [callExit_world]
+    split
+    · exact liveObs_congr (hrv _ _)
+    · cases calleeOf env (w.addBalance target 0) target
+      · exact h1.1
       · exact (h1.trans (static_run env hrv body hplain _ _ _ _ _ h1.2)).1
+      · exact h1.1
 
 /-- non-vacuity: a well-formed world with a contract, and a plain body that tries every kind of
     write below a nested CALL and DELEGATECALL -/
